@@ -167,6 +167,12 @@ const (
 	kNotifyForeignFunction
 	kReplyForeignFunction
 	kDiscReplyDefectiveEntry
+	kNotifyFailedForeignSelector
+	kNotifyLimitsForeignSelector
+	kReplyLimitsPartialForeign
+	kWriteLimitsForeignSelector
+	kWriteLimitsDeleteForeign
+	kReadLimitsSelector
 	numKinds
 )
 
@@ -174,7 +180,9 @@ var kindNames = []string{"disc-reply", "disc-notify-add", "disc-notify-remove", 
 	"bind-call", "bind-delete", "sub-data-call", "bind-data-call", "read-disc", "read-usecase", "read-destlist", "read-limits",
 	"reply-limits", "notify-limits", "notify-limits-partial", "notify-limits-delete", "write-limits", "write-limits-partial",
 	"write-limits-delete-selector", "write-limits-delete-elements", "result-nm", "result-feature", "usecase-reply", "usecase-notify",
-	"read-manufacturer", "notify-foreign-function", "reply-foreign-function", "disc-reply-defective-entry"}
+	"read-manufacturer", "notify-foreign-function", "reply-foreign-function", "disc-reply-defective-entry",
+	"notify-failed-foreign-selector", "notify-limits-foreign-selector", "reply-limits-partial-foreign", "write-limits-foreign-selector",
+	"write-limits-delete-foreign", "read-limits-selector"}
 
 func limits(r *hx.Rng) *model.LoadControlLimitConstraintsListDataType {
 	l := &model.LoadControlLimitConstraintsListDataType{}
@@ -200,6 +208,17 @@ func elems(r *hx.Rng) *model.LoadControlLimitConstraintsDataElementsType {
 func selFilter(ctrl *model.CmdControlType, id uint) model.FilterType {
 	return model.FilterType{CmdControl: ctrl,
 		LoadControlLimitConstraintsListDataSelectors: &model.LoadControlLimitConstraintsListDataSelectorsType{LimitId: util.Ptr(model.LoadControlLimitIdType(id))}}
+}
+
+// foreignSel: a filter carrying the selector of measurementListData (a function the LoadControl features do not have),
+// optionally next to the own selector
+func foreignSel(ctrl *model.CmdControlType, withOwn bool) model.FilterType {
+	f := model.FilterType{CmdControl: ctrl,
+		MeasurementListDataSelectors: &model.MeasurementListDataSelectorsType{MeasurementId: util.Ptr(model.MeasurementIdType(1))}}
+	if withOwn {
+		f.LoadControlLimitConstraintsListDataSelectors = &model.LoadControlLimitConstraintsListDataSelectorsType{LimitId: util.Ptr(model.LoadControlLimitIdType(1))}
+	}
+	return f
 }
 
 var ctrlPartial = func() *model.CmdControlType { return &model.CmdControlType{Partial: &model.ElementTagType{}} }
@@ -344,6 +363,39 @@ func validMessage(r *hx.Rng, kind, k int, ctr uint64) []byte {
 		ei = append(ei, bad)
 		d.EntityInformation = append(ei, d.EntityInformation[pos:]...)
 		return encode(header(rNM, lNM, ctr, 1, model.CmdClassifierTypeReply, false), model.CmdType{NodeManagementDetailedDiscoveryData: d})
+	case kNotifyFailedForeignSelector:
+		// a partial notify that cannot be applied (selector, no item) whose filter carries the selector of another
+		// function: answered with an error result and followed by a re-read of the function
+		return encode(header(rSrv, lCli, ctr, -1, model.CmdClassifierTypeNotify, ack),
+			model.CmdType{Function: fnLimits, Filter: []model.FilterType{foreignSel(ctrlPartial(), r.Bool())}, LoadControlLimitConstraintsListData: &model.LoadControlLimitConstraintsListDataType{}})
+	case kNotifyLimitsForeignSelector:
+		return encode(header(rSrv, lCli, ctr, -1, model.CmdClassifierTypeNotify, ack),
+			model.CmdType{Function: fnLimits, Filter: []model.FilterType{foreignSel(ctrlPartial(), r.Bool())}, LoadControlLimitConstraintsListData: limits(r)})
+	case kReplyLimitsPartialForeign:
+		f := foreignSel(ctrlPartial(), false)
+		if r.Bool() {
+			f = foreignSel(ctrlDelete(), true)
+		}
+		return encode(header(rSrv, lCli, ctr, ref, model.CmdClassifierTypeReply, false),
+			model.CmdType{Function: fnLimits, Filter: []model.FilterType{f}, LoadControlLimitConstraintsListData: limits(r)})
+	case kWriteLimitsForeignSelector:
+		return encode(header(rCli, lSrv, ctr, -1, model.CmdClassifierTypeWrite, ack),
+			model.CmdType{Function: fnLimits, Filter: []model.FilterType{foreignSel(ctrlPartial(), r.Bool())}, LoadControlLimitConstraintsListData: limits(r)})
+	case kWriteLimitsDeleteForeign:
+		f := foreignSel(ctrlDelete(), false)
+		if r.Bool() {
+			f.MeasurementListDataSelectors = nil
+			f.MeasurementDataElements = &model.MeasurementDataElementsType{Value: &model.ElementTagType{}}
+		}
+		return encode(header(rCli, lSrv, ctr, -1, model.CmdClassifierTypeWrite, ack),
+			model.CmdType{Function: fnLimits, Filter: []model.FilterType{f, {CmdControl: ctrlPartial()}}, LoadControlLimitConstraintsListData: limits(r)})
+	case kReadLimitsSelector:
+		f := selFilter(ctrlPartial(), uint(r.Range(1, 3)))
+		if r.Bool() {
+			f = foreignSel(ctrlPartial(), false)
+		}
+		return encode(header(rCli, lSrv, ctr, -1, model.CmdClassifierTypeRead, false),
+			model.CmdType{Function: fnLimits, Filter: []model.FilterType{f}, LoadControlLimitConstraintsListData: &model.LoadControlLimitConstraintsListDataType{}})
 	case kReadManufacturer:
 		return encode(header(rNM, faddr(0, nm0, 1), ctr, -1, model.CmdClassifierTypeRead, false),
 			model.CmdType{DeviceClassificationManufacturerData: &model.DeviceClassificationManufacturerDataType{}})
